@@ -116,6 +116,8 @@ class World:
                 new = self.pool[op["i"] - 1] + self.pool[op["j"] - 1]
             elif kind == "make_required":
                 new = make_required(self.pool[op["i"] - 1])
+            elif kind == "make_required_key":
+                new = make_required(self.pool[op["i"] - 1], ["a"])
             elif kind == "alias":
                 new = d42.schema.alias("T", self.pool[op["i"] - 1])
             elif kind == "validate":
@@ -167,8 +169,33 @@ class World:
         return any(hasattr(x, "props") or x is ... for x in vals) or self.kinds[idx] != "value"
 
 
+def interfere(variant):
+    """unrelated operations executed between two runs of the same history: conversions,
+    validations and generations over many distinct values, in two different orders"""
+    import d42
+    from d42.utils import from_native
+    specials = [1.0, 0.0, True, False, 1, 0, "", "ab"]
+    if variant:
+        specials = specials[::-1]
+    for x in specials:
+        from_native(x)
+    for n in range(1000, 1160):
+        from_native(n)
+    for x in specials:
+        s = from_native([x])
+        d42.validate(s, [x])
+    d42.validate(d42.schema.dict({"a": d42.schema.int, ...: ...}), {"a": 1, "b": 2})
+    d42.fake(d42.schema.list(d42.schema.str.len(1, 2)).len(2))
+    try:
+        d42.substitute(d42.schema.dict({"a": d42.schema.int}), {"a": "x"})
+    except Exception:
+        pass
+
+
 def replay(hist):
     """returns the event list of one behaviour"""
+    if any(op["op"] in ("from_native", "substitute", "validate") for op in hist):
+        interfere(0)
     w = World()
     w.kinds = []
     events = []
@@ -190,7 +217,10 @@ def replay(hist):
               "out": out, "changed": changed, "heap_changed": heap_changed, "repeat_ok": True,
               "pool_abs": pool_abs}
         events.append(ev)
-    # repeat: a second world replays the same history; outcomes and results must coincide
+    # repeat: a second world replays the same history after unrelated work has been done
+    # ("regardless of what was executed in between"); outcomes and results must coincide
+    if any(op["op"] in ("from_native", "substitute", "validate") for op in hist):
+        interfere(1)
     w2 = World()
     w2.kinds = list(w.kinds)
     same = True
